@@ -65,6 +65,13 @@ class H5FileOpenedError(FileExistsError):
     pass
 
 
+class _MaxTimeExceeded(Exception):
+    """Internal signal that the `max_time` limit of a run was reached. Kept separate from
+    TimeoutError, which user code (e.g. a forward model) may raise for its own reasons."""
+
+    pass
+
+
 class _AbstractSampler(_ABC):
     """Abstract base class for Markov chain Monte Carlo samplers."""
 
@@ -682,21 +689,20 @@ class _AbstractSampler(_ABC):
 
                 # Check elapsed time
                 if self.max_time is not None and scheduled_termination_time < _time():
-                    # Raise TimeoutError if we're over time
-                    raise TimeoutError
+                    # Signal that we're over time
+                    raise _MaxTimeExceeded
 
         except KeyboardInterrupt:  # Catch SIGINT --------------------------------------
             # Assume current proposal couldn't be finished, so ignore it.
             self.current_proposal -= 1
-        except TimeoutError:  # Catch SIGINT -------------------------------------------
+        except _MaxTimeExceeded:  # The max_time limit -----------------------------------
             pass
-        except Exception as e:
-            # Any other exception, we don't know how to handle
-            self.proposals_iterator.close()
-            self.proposals_iterator = None
-            self.end_time = _datetime.now()
-            self._close_sampler()
-            raise e
+        except BaseException:
+            # Any other exception, we don't know how to handle. The current proposal
+            # couldn't be finished either; the sampler is closed (once) in the finally
+            # clause and the original exception propagates.
+            self.current_proposal -= 1
+            raise
         finally:
             self.proposals_iterator.close()
             self.proposals_iterator = None
